@@ -203,7 +203,8 @@ Proof.
   destruct (negb p && (lenN body <? 8)); [apply bounded_rej|].
   destruct (rd_n body 4 s0) as [vf s1]. destruct (0 <? version_of vf); [apply bounded_rej|].
   destruct (rd_n body 4 s1) as [cnt s2]. destruct p.
-  - destruct (has (flags_of vf) 2 && (hs - 16 <? 2 * cnt)); [apply bounded_rej|]. ok_with; lia.
+  - destruct (apayload_len hs hl - 8 <? 0)%Z; [apply bounded_rej|].
+    destruct (has (flags_of vf) 2 && (Z.to_N (apayload_len hs hl - 8) <? 2 * cnt)); [apply bounded_rej|]. ok_with; lia.
   - destruct (has (flags_of vf) 2 && (lenN body - 8 <? 2 * cnt)); [apply bounded_rej|]. ok_with; lia.
 Qed.
 
@@ -665,7 +666,8 @@ Proof.
   pose proof (rd_n_state body 4 s1) as B. destruct (rd_n body 4 s1) as [cnt s2]. cbn [snd] in B.
   bools. rewrite raw_len. unfold apayload_len.
   destruct p.
-  - destruct (has (flags_of vf) 2 && (hs - 16 <? 2 * cnt)) eqn:G; [unfold rej; intros [= <-]; discriminate|].
+  - destruct (Z.of_N hs - Z.of_N hl - 8 <? 0)%Z eqn:Ez0; [unfold rej; intros [= <-]; discriminate|].
+    destruct (has (flags_of vf) 2 && (Z.to_N (Z.of_N hs - Z.of_N hl - 8) <? 2 * cnt)) eqn:G; [unfold rej; intros [= <-]; discriminate|].
     unfold afin. intros [= <-]. cbn [o_ok o_count andb]. intros Eok Hf. rewrite Hf in G. cbn [andb] in G. bools.
     apply negb_true_iff in Eok. unfold rd_bytes_z in Eok.
     destruct (Z.of_N hs - Z.of_N hl - 8 <? 0)%Z eqn:Ez; [discriminate|]. bools.
